@@ -18,7 +18,8 @@ FIX = os.path.join(factsmod.VERIF, "fixtures")
 
 def _hash():
     h = hashlib.sha256()
-    for f in [os.path.join(FIX, "src", "lib.rs"), os.path.join(factsmod.VERIF, "sa", "mir.py"), os.path.join(factsmod.VERIF, "sa", "atoms.py"),
+    for f in [os.path.join(FIX, "src", "lib.rs"), os.path.join(FIX, "src", "models.rs"), os.path.join(factsmod.VERIF, "sa", "inline.py"),
+              os.path.join(factsmod.VERIF, "sa", "mir.py"), os.path.join(factsmod.VERIF, "sa", "atoms.py"),
               os.path.join(factsmod.VERIF, "sa", "fixtures.py"), factsmod.DRIVER]:
         try:
             with open(f, "rb") as fh:
@@ -31,10 +32,10 @@ def _hash():
 def ensure():
     """run the controls once per (fixtures, core, driver) version; raise CheckerError on failure"""
     marker = os.path.join(factsmod.CACHE, "fixtures-ok-" + _hash())
-    if os.path.exists(marker):
+    d = os.path.join(factsmod.CACHE, "facts-fixtures")
+    if os.path.exists(marker) and glob.glob(os.path.join(d, "*.jsonl")):
         return json.load(open(marker))
     factsmod.build_driver()
-    d = os.path.join(factsmod.CACHE, "facts-fixtures")
     shutil.rmtree(d, ignore_errors=True)
     os.makedirs(d)
     target = os.path.join(factsmod.CACHE, "target-fixtures")
@@ -61,6 +62,20 @@ def ensure():
     with open(marker, "w") as fh:
         json.dump(res, fh)
     return res
+
+
+_MODEL_FACTS = None
+
+
+def model_facts():
+    """facts of the fixtures crate (holds the std combinator models used by sa/inline.py)"""
+    global _MODEL_FACTS
+    if _MODEL_FACTS is None:
+        ensure()
+        f = factsmod.Facts()
+        f.load_dir(os.path.join(factsmod.CACHE, "facts-fixtures"))
+        _MODEL_FACTS = f
+    return _MODEL_FACTS
 
 
 def _time_guarded(facts, b, bi):
@@ -168,4 +183,34 @@ def controls(facts):
     b = body("variants")
     gs = sorted(mir.render_guard(b.guard(s[0])) for s in b.stores())
     res["variant_guards"] = gs == ["(s is B)", "(s is C)"]
+    # sa/inline.py: the same behaviour written in two idioms gives the same effects under the same guards
+    from sa import inline
+
+    def canon_guard(g):
+        out = set()
+        for conj in g:
+            c2 = set()
+            for a in conj:
+                c = atoms.atom_cmp(a)
+                c2.add(("cmp", c[0], mir.render(c[1]), mir.render(c[2])) if c else mir.render_atom(a))
+            out.add(frozenset(c2))
+        return frozenset(out)
+
+    def inl_view(name):
+        ds = [d for d in facts.bodies if d.endswith("inl::S::" + name)]
+        inl = inline.Inliner(facts, facts, policy=lambda f, c, r: c.endswith("try_debit"))
+        b = mir.Body(facts, inl.inline(facts.bodies[ds[0]]))
+        eff = set()
+        for bi, si, path, val, s_ in b.stores():
+            eff.add(("store", mir.render(path), mir.render(val), canon_guard(b.guard(bi))))
+        for bi, t, tm in b.real_calls():
+            if b.mut_args(t):
+                eff.add(("call", mir.render(tm), canon_guard(b.guard(bi))))
+        ret = set((canon_guard(g), mir.render(t)) for g, t, bi in b.expanded_cases(0))
+        return eff, ret, inl.log
+    for a, b_ in (("find_combinator", "find_match"), ("each_for", "each_for_each"), ("debit_inline", "debit_helper"),
+                  ("note_inspect", "note_if_let"), ("newer_combinator", "newer_match")):
+        ea, ra, la = inl_view(a)
+        eb, rb, lb = inl_view(b_)
+        res["inline_pair_%s" % a] = ea == eb and ra == rb and bool(ea or ra) and bool(la or lb)
     return res
